@@ -144,7 +144,8 @@ def one_run(ctx, drv, rng):
     from eudoxia.simulator import run_simulator
     from eudoxia.executor.executor import Executor
     tps = rng.choice([1, 2, 4, 8, 16])
-    poll = rng.choice([F(1, 4), F(1, 2), F(1), F(2), F(5)])
+    # also intervals that are not a whole number of ticks (0.3 s at 8 ticks/s = 2.4 ticks): the promise is in seconds
+    poll = rng.choice([F(1, 4), F(1, 2), F(1), F(2), F(5), F(3, 10), F(7, 10), F(3, 2), F(9, 4), F(3, 8), F(11, 10)])
     multi = rng.random() < 0.5
     sus_prob = rng.choice([0.0, 0.5])
     heavy = rng.random() < 0.35
